@@ -32,7 +32,12 @@ CFG = {
             "carry (n, seed, shape) only: Coq and Go derive the same records and compare order-sensitive fingerprints. "
             "Distinct by input; non-trivial = at least one triangle record",
     "trusted": ["facet-normal *values* (normalised mean / geometric normal) are float arithmetic: compared by the "
-                "harness against an independent float64 computation (1e-6), only their placement is in the model"],
+                "harness against an independent float64 computation (1e-6), only their placement is in the model",
+                "float words are compared modulo the quieting of signalling NaNs that encoding/binary performs (float32 -> "
+                "float64 -> float32 on struct fields): notes/C07.md finding F1",
+                "large cases: equality of outputs is judged through two 63-bit polynomial fingerprints (collision "
+                "probability ~2^-60 per comparison); beyond 4200 records the model's answer is taken from the theorems "
+                "stl_big_file_model / stl_prefix_rejected instead of executing it"],
     "modelled": ["encoding/binary little-endian layout of stl.Triangle (modelled byte for byte, checked by the "
                  "correspondence)", "IEEE rounding float64->float32 is performed by Go and passed to the model as bit patterns"],
 }
